@@ -4,9 +4,11 @@
 
    Reading of the property text used here.
    * "active frame ... never removed or altered" = the frame-table row (status) and the content of the
-     frame.  Embeddings live in the vector index, not in the frame: a doctor run that rebuilds the vector
-     index (forced, or because the index is damaged) empties it -- finding F-C14-1, owned by C14; here it
-     is stated (f_nvec = 0 in that case) and observed, not counted as an altered frame.
+     frame.  Embeddings live in the vector index, not in the frame.  Since fix 83a83e8 (F-C14-1) a vector
+     rebuild re-encodes the entries of the index it loads, so the embeddings of active frames survive every
+     doctor run on an index that still decodes (stated: f_nvec unchanged).  An index whose bytes are damaged
+     holds the only copy: it comes back holding just the embeddings of the pending records (none when nothing
+     is pending) -- stated (theorem 2) and observed, not counted as an altered frame.
    * "an immediate second doctor run reports Clean" = a second run with default options (with an option
      that forces work -- rebuild_* or vacuum -- the plan is never a no-op, so the status is Healed by
      construction; proved: Clean iff nothing is forced, never Failed).
@@ -49,7 +51,7 @@ Theorem C21_doctor_heals_outside_known : forall o f,
   r_status (snd (doctor o f)) = (if is_noop (compute o f) then 0 else 1) /\
   r_verified (snd (doctor o f)) = Some true /\
   verify (fst (doctor o f)) = Ok true /\
-  f_nvec (fst (doctor o f)) = (if vec_bad (f_vec f) || o_vec o then 0 else f_nvec f).
+  f_nvec (fst (doctor o f)) = (if vec_bad (f_vec f) && negb (replayed f) then 0 else f_nvec f).
 Proof. exact doctor_heals_outside_known. Qed.
 Print Assumptions C21_doctor_heals_outside_known.
 
@@ -171,6 +173,16 @@ Example C21_boundary_pointer_and_footer_lost :
   opens (fst (doctor default_opts f)) = false.
 Proof. vm_compute. repeat split. Qed.
 
+(* vectors: a forced rebuild on an index that decodes keeps the count; a damaged index on a closed file
+   comes back empty; on a crash-left file it holds what the replay wrote (the pending embeddings) *)
+Example C21_vectors_after_doctor :
+  f_nvec (fst (doctor (mkOpts false false true false false) base_closed)) = 2 /\
+  f_nvec (fst (doctor default_opts (damage_file DVec base_closed))) = 0 /\
+  f_vec (fst (doctor default_opts (damage_file DVec base_closed))) = IxNone /\
+  f_nvec (fst (doctor default_opts (damage_file DVec base_pending))) = f_nvec base_pending /\
+  f_vec (fst (doctor default_opts (damage_file DVec base_pending))) = IxOk.
+Proof. vm_compute. repeat split. Qed.
+
 (* ---- non-vacuity ---- *)
 Example C21_nonvacuous_hypotheses :
   sound base_closed /\ sound base_pending /\
@@ -183,6 +195,6 @@ Example C21_nonvacuous_run :
   let f := damage_file DFooter (damage_file (DHdrCk 9) (damage_file DVec base_pending)) in
   let r := doctor (mkOpts false false false true false) f in
   r_status (snd r) = 1 /\ r_phases (snd r) = [1; 2; 4; 3; 5; 6] /\
-  f_rows (fst r) = [(2, 0); (2, 0); (0, 3000); (0, 4000)] /\ f_nvec (fst r) = 0 /\
+  f_rows (fst r) = [(2, 0); (2, 0); (0, 3000); (0, 4000)] /\ f_nvec (fst r) = 2 /\
   r_status (snd (doctor default_opts (fst r))) = 0.
 Proof. vm_compute. repeat split. Qed.
